@@ -140,7 +140,7 @@ theorem actFacts_nil (v : SetView) (cur upd : String) (b : Int) (E : List Int) (
 /-- when nothing is to do, every policy is fine -/
 theorem pol_of_done (hs : NSC h j) (hz : muPods j = 0) : Pol hs.norm := by
   have hrec := done_recon hs hz
-  refine ⟨by rw [hrec], ?_⟩
+  apply Pol.of_facts (by rw [hrec])
   rw [hrec]
   exact actFacts_nil _ _ _ _ _ _
 
@@ -159,8 +159,16 @@ theorem done_next_pods (hs : NSC h j) (hz : muPods j = 0) : KeyPerm (nextW h j).
   exact h1
 
 theorem done_next_mu (hs : NSC h j) (hz : muPods j = 0) : muPods (nextW h j) = 0 := by
-  have := (mu_stepC hs (pol_of_done hs hz)).1
-  omega
+  have h1 := muPods_next hs (pol_of_done hs hz)
+  have hraw : rawNext hs.norm = j.pods := by
+    unfold rawNext nextRawG
+    rw [done_recon hs hz]
+    simp only [applyActs]
+    rw [List.filter_eq_self.2 (fun c hc => by simp [(hs.settled c hc).1])]
+    conv_rhs => rw [← List.map_id j.pods]
+    exact List.map_congr_left (fun c hc => settleOne_healthy ((done_pods hs hz).1 c hc).2.1)
+  rw [h1, hraw, ← hs.norm.updName, ← muPods_eq]
+  exact hz
 
 /-- the status is settled: it names the newest revision, a listed current revision, and equals the census it implies -/
 structure Fix (hn : NormC h j) : Prop where
